@@ -815,6 +815,194 @@ Proof.
 Qed.
 End ParseFacts.
 
+(* the value of a datetimeNew result as a count: midnight of the first of the normalised month plus the signed total *)
+Lemma tod_recompose t : let r := t mod 86400000 in
+  (t / 86400000) * US_DAY + ((r / 3600000 * 60 + r / 60000 mod 60) * 60 + r / 1000 mod 60) * US_SEC + r mod 1000 * 1000 = t * 1000.
+Proof. cbv zeta. unfold US_DAY, US_SEC. dm. lia. Qed.
+
+Theorem new_value y mo d h mi s ms w :
+  datetime_new y mo d h mi s ms = DOk w ->
+  w = days_from_civil (norm_year y mo, norm_month mo, 1) * US_DAY + dn_total_ms d h mi s ms * 1000.
+Proof.
+  intros E. destruct (dtnew_args_ok y mo d h mi s ms) eqn:A; [|rewrite new_rejects in E by exact A; discriminate].
+  rewrite new_is_calendar_arithmetic in E by exact A. apply py_datetime_ok in E. destruct E as [_ [E _]]. subst w.
+  unfold dn_spec_fields. set (t := dn_total_ms d h mi s ms).
+  assert (HM : 1 <= norm_month mo <= 12) by (unfold norm_month; dm; lia).
+  assert (V : valid_date (norm_year y mo, norm_month mo, 1) = true).
+  { apply valid_date_iff. pose proof (month_days_bounds (norm_year y mo) (norm_month mo)). lia. }
+  pose proof (dfc_shift (t / 86400000) _ V) as D.
+  destruct (shift_days (t / 86400000) (norm_year y mo, norm_month mo, 1)) as [[y' m'] d'].
+  unfold of_fields. cbn [f_year f_month f_day f_hour f_minute f_second f_us]. rewrite D.
+  pose proof (tod_recompose t) as R. cbv zeta in R. lia.
+Qed.
+
+Section Exists.
+Variable off_local off_utc : Z -> Z.
+(* "exists in the zone" is exactly: naive -> aware -> UTC -> aware -> naive gives the same wall time back *)
+Theorem exists_iff_astimezone_fixpoint w :
+  in_range w = true -> in_range (w - off_local w * US_SEC) = true ->
+  (exists_in_zone off_local off_utc w = true <-> exists o, astimezone_naive off_local off_utc w = DOk (w, o)).
+Proof.
+  intros Hw Hu. unfold exists_in_zone, astimezone_naive. rewrite Hu. split.
+  - intros E. apply Z.eqb_eq in E. rewrite E. replace (w - off_local w * US_SEC + off_local w * US_SEC) with w by lia.
+    rewrite Hw. eauto.
+  - intros [o E]. destruct (in_range (w - off_local w * US_SEC + off_utc (w - off_local w * US_SEC) * US_SEC)); [|discriminate].
+    injection E as E1 E2. apply Z.eqb_eq. unfold US_SEC in *. lia.
+Qed.
+End Exists.
+
+(* ------------------------------------------------------------------ the accepted texts, declaratively *)
+Definition all_dg (dg : N -> option Z) (l : str) : Prop := Forall (fun c => dg c <> None) l.
+
+(* YYYY-MM-DD in (Unicode) decimal digits, optionally followed by one newline *)
+Definition is_date_text (s : str) : Prop :=
+  exists y m d tl, s = y ++ [C_DASH] ++ m ++ [C_DASH] ++ d ++ tl /\
+    length y = 4%nat /\ length m = 2%nat /\ length d = 2%nat /\
+    all_dg udigit y /\ all_dg udigit m /\ all_dg udigit d /\ (tl = [] \/ tl = [C_NL]).
+
+(* YYYY-MM-DDTHH:MM:SS[.f{1,6}](Z|+HH:MM|-HH:MM) in ASCII digits *)
+Definition is_datetime_text (s : str) : Prop :=
+  exists y mo d h mi sec frac zone,
+    s = y ++ [C_DASH] ++ mo ++ [C_DASH] ++ d ++ [C_T] ++ h ++ [C_COLON] ++ mi ++ [C_COLON] ++ sec ++ frac ++ zone /\
+    length y = 4%nat /\ length mo = 2%nat /\ length d = 2%nat /\ length h = 2%nat /\ length mi = 2%nat /\ length sec = 2%nat /\
+    all_dg adigit y /\ all_dg adigit mo /\ all_dg adigit d /\ all_dg adigit h /\ all_dg adigit mi /\ all_dg adigit sec /\
+    (frac = [] \/ exists fd, frac = C_DOT :: fd /\ (1 <= length fd <= 6)%nat /\ all_dg adigit fd) /\
+    (zone = [C_Z] \/
+     exists sg oh om, zone = sg :: oh ++ [C_COLON] ++ om /\ (sg = C_PLUS \/ sg = C_DASH) /\
+                      length oh = 2%nat /\ length om = 2%nat /\ all_dg adigit oh /\ all_dg adigit om).
+
+Lemma take_digits_inv dg n : forall s acc v r, take_digits dg n s acc = Some (v, r) ->
+  exists ds, s = ds ++ r /\ length ds = n /\ all_dg dg ds.
+Proof.
+  induction n as [|n IH]; intros s acc v r H; cbn in H.
+  - injection H as _ <-. exists []. repeat split. constructor.
+  - destruct s as [|c t]; [discriminate|]. destruct (dg c) eqn:E; [|discriminate].
+    apply IH in H. destruct H as [ds [-> [L F]]]. exists (c :: ds). repeat split; cbn; [congruence|].
+    constructor; [congruence|exact F].
+Qed.
+
+Lemma expect_inv c s r : expect c s = Some r -> s = c :: r.
+Proof. unfold expect. destruct s as [|x t]; [discriminate|]. destruct (N.eqb_spec x c); [|discriminate]. intros H. injection H as <-. congruence. Qed.
+
+Lemma frac_digits_inv n : forall s acc cnt v cnt' r, frac_digits n s acc cnt = (v, cnt', r) ->
+  exists fd, s = fd ++ r /\ cnt' = cnt + Z.of_nat (length fd) /\ (length fd <= n)%nat /\ all_dg adigit fd.
+Proof.
+  induction n as [|n IH]; intros s acc cnt v cnt' r H; cbn in H.
+  - injection H as _ <- <-. exists []. cbn. repeat split; [lia|lia|constructor].
+  - destruct s as [|c t].
+    + injection H as _ <- <-. exists []. cbn. repeat split; [lia|lia|constructor].
+    + destruct (adigit c) eqn:E.
+      * apply IH in H. destruct H as [fd [-> [C [L F]]]]. exists (c :: fd). cbn. repeat split; [lia|lia|].
+        constructor; [congruence|exact F].
+      * injection H as _ <- <-. exists []. cbn. repeat split; [lia|lia|constructor].
+Qed.
+
+Ltac step_take H ds r v :=
+  match type of H with
+  | obind (take_digits ?dg ?n ?s ?a) _ = Some _ =>
+    let E := fresh "E" in
+    destruct (take_digits dg n s a) as [[v r]|] eqn:E;
+    [cbn [obind] in H; apply take_digits_inv in E; destruct E as [ds [-> [? ?]]]|discriminate H]
+  end.
+Ltac step_exp H r :=
+  match type of H with
+  | obind (expect ?c ?s) _ = Some _ =>
+    let E := fresh "E" in destruct (expect c s) as [r|] eqn:E; [cbn [obind] in H; apply expect_inv in E; subst|discriminate H]
+  end.
+
+Lemma parse_date_form_shape s c : parse_date_form s = Some c -> is_date_text s.
+Proof.
+  unfold parse_date_form. intros H.
+  step_take H y r1 vy. step_exp H r2. step_take H m r3 vm. step_exp H r4. step_take H d tail0 vd.
+  exists y, m, d, tail0. repeat split; auto.
+  destruct tail0 as [|c0 [|c1 t]]; auto; try discriminate.
+  destruct (N.eqb_spec c0 C_NL); [subst; auto|discriminate].
+Qed.
+
+Lemma parse_datetime_form_shape s x : parse_datetime_form s = Some x -> is_datetime_text s.
+Proof.
+  unfold parse_datetime_form. intros H.
+  step_take H y r1 v. step_exp H r2. step_take H mo r3 v0. step_exp H r4. step_take H d r5 v1. step_exp H r6.
+  step_take H h r7 v2. step_exp H r8. step_take H mi r9 v3. step_exp H r10. step_take H sec r11 v4.
+  (* the optional fraction *)
+  assert (F : exists frac r12 us, r11 = frac ++ r12 /\
+            (frac = [] \/ exists fd, frac = C_DOT :: fd /\ (1 <= length fd <= 6)%nat /\ all_dg adigit fd) /\
+            match r12 with
+            | [] => None
+            | [c] => if (c =? C_Z)%N then Some (mkf v v0 v1 v2 v3 v4 us, 0) else None
+            | c :: (_ :: _) as t =>
+              if (c =? C_PLUS)%N || (c =? C_DASH)%N then
+                do (oh, t) <- take_digits adigit 2 t 0;
+                do t <- expect C_COLON t;
+                do (om, t) <- take_digits adigit 2 t 0;
+                match t with
+                | [] => let o := oh * 3600 + om * 60 in Some (mkf v v0 v1 v2 v3 v4 us, if (c =? C_DASH)%N then - o else o)
+                | _ => None
+                end
+              else None
+            end = Some x).
+  { destruct r11 as [|c t]; [discriminate|].
+    destruct (N.eqb_spec c C_DOT) as [->|NE].
+    - destruct (frac_digits 6 t 0 0) as [[fv cnt] r] eqn:FD. apply frac_digits_inv in FD.
+      destruct FD as [fd [-> [C [L A]]]]. destruct (Z.eqb_spec cnt 0); [discriminate|]. cbn [obind] in H.
+      exists (C_DOT :: fd), r, (fv * 10 ^ (6 - cnt)). split; [reflexivity|]. split; [|exact H].
+      right. exists fd. repeat split; auto; lia.
+    - cbn [obind] in H. exists [], (c :: t), 0. split; [reflexivity|]. split; [auto|exact H]. }
+  destruct F as [frac [r12 [us [-> [Hfrac Hz]]]]]. clear H.
+  exists y, mo, d, h, mi, sec, frac, r12. repeat split; auto.
+  destruct r12 as [|c [|c2 t]]; [discriminate| |].
+  - destruct (N.eqb_spec c C_Z); [subst; auto|discriminate].
+  - right. destruct (((c =? C_PLUS)%N || (c =? C_DASH)%N)) eqn:S; [|discriminate].
+    step_take Hz oh q1 voh. step_exp Hz q2. step_take Hz om q3 vom. destruct q3; [|discriminate].
+    exists c, oh, om. rewrite app_nil_r. repeat split; auto.
+    apply orb_true_iff in S. destruct S as [S|S]; apply N.eqb_eq in S; auto.
+Qed.
+
+Section ParseGrammar.
+Variable off_utc : Z -> Z.
+(* THEOREM (invalid text => null): whatever parses to a datetime is a text of the ISO date or datetime grammar *)
+Theorem parse_some_is_iso s w : iso_parse off_utc s = Some w -> is_date_text s \/ is_datetime_text s.
+Proof.
+  unfold iso_parse. destruct (parse_date_form s) as [c|] eqn:D.
+  - intros _. left. eapply parse_date_form_shape, D.
+  - destruct (parse_datetime_form s) as [x|] eqn:T; [|discriminate]. intros _. right. eapply parse_datetime_form_shape, T.
+Qed.
+
+Corollary parse_non_iso_is_null s : ~ (is_date_text s \/ is_datetime_text s) -> iso_parse off_utc s = None.
+Proof. intros N. destruct (iso_parse off_utc s) eqn:E; [|reflexivity]. exfalso. apply N. eapply parse_some_is_iso, E. Qed.
+End ParseGrammar.
+
+Section General.
+Variable off_local off_utc : Z -> Z.
+(* without the existence hypothesis: parse (format w) is the zone's own normalisation of w (the wall time astimezone()
+   reports, e.g. 03:30 for a 02:30 that falls into a DST gap), truncated to the millisecond *)
+Theorem iso_format_parse_general w l o :
+  astimezone_naive off_local off_utc w = DOk (l, o) ->
+  Z.abs o <? 86400 = true -> o mod 60 =? 0 = true ->
+  off_utc (trunc_ms l - o * US_SEC) =? o = true ->
+  exists s, iso_format off_local off_utc w = DOk s /\ iso_parse off_utc s = Some (trunc_ms l).
+Proof.
+  intros A Habs Hmin Hst. apply Z.ltb_lt in Habs. apply Z.eqb_eq in Hmin, Hst.
+  unfold iso_format. rewrite A. cbn [dbind fst snd]. eexists. split; [reflexivity|].
+  unfold astimezone_naive in A.
+  destruct (in_range (w - off_local w * US_SEC)) eqn:Hu; [|discriminate].
+  destruct (in_range (w - off_local w * US_SEC + off_utc (w - off_local w * US_SEC) * US_SEC)) eqn:Hl; [|discriminate].
+  injection A as El Eo. set (u := w - off_local w * US_SEC) in *. rewrite Eo in El.
+  assert (Hl' : in_range l = true) by (rewrite <- El, <- Eo; exact Hl).
+  assert (V : valid_fields (fields l) = true) by (rewrite <- in_range_fields; exact Hl').
+  destruct (parse_datetime_text (fields l) o V Habs Hmin) as [P1 P2].
+  unfold iso_parse, fromiso_to_local. rewrite P1, P2. rewrite trunc_fields_valid by exact V.
+  destruct (Z.ltb_spec (Z.abs o) 86400); [|lia]. cbn [andb]. rewrite of_trunc_fields.
+  assert (Hk : o * US_SEC = (o * 1000) * 1000) by (unfold US_SEC; lia).
+  assert (Hu' : in_range (trunc_ms l - o * US_SEC) = true).
+  { replace (trunc_ms l - o * US_SEC) with (trunc_ms u).
+    - apply trunc_ms_range, Hu.
+    - rewrite <- El. rewrite Hk. rewrite trunc_ms_shift. lia. }
+  rewrite Hu', Hst. replace (trunc_ms l - o * US_SEC + o * US_SEC) with (trunc_ms l) by lia.
+  rewrite trunc_ms_range by exact Hl'. rewrite trunc_ms_idem. reflexivity.
+Qed.
+End General.
+
 (* ------------------------------------------------------------------ non-vacuity *)
 (* a zone with a DST transition: UTC-5 before 2024-03-10T07:00:00Z, UTC-4 after; wall times 02:00-03:00 do not exist *)
 Definition ex_T : Z := 1710054000000000.
